@@ -28,6 +28,8 @@ def plan(tier, seed):
         return [
             dict(space="k3", lexmap="M0", alpha="ab \n", nmax=4),
             dict(space="k3", lexmap="M0", alpha="abx", nmax=3),
+            # '\n' is not layout here: the error position can be a newline
+            dict(space="k3", lexmap="M0", alpha="ab\n", nmax=3, ws=" "),
             dict(space="k3", lexmap="M1", alpha="ab", nmax=4),
             dict(space="k3", lexmap="M3", alpha="ab", nmax=4),
             dict(space="k4only", win=(seed, 40), lexmap="M0", alpha="ab ", nmax=4),
@@ -36,6 +38,7 @@ def plan(tier, seed):
     return [
         dict(space="k3", lexmap="M0", alpha="ab \n", nmax=5),
         dict(space="k3", lexmap="M0", alpha="abx ", nmax=4),
+        dict(space="k3", lexmap="M0", alpha="ab\n ", nmax=4, ws=" "),
         dict(space="k3", lexmap="M1", alpha="ab ", nmax=4),
         dict(space="k3", lexmap="M2", alpha="ab ", nmax=4),
         dict(space="k3", lexmap="M3", alpha="ab ", nmax=4),
@@ -119,6 +122,7 @@ def run_unit(u):
     judge = Judge(PROP, KNOWN)
     st = collections.Counter()
     samples = []
+    WS = u.get("ws", " \n")
     skip = ws_skipper(WS)
     for gi in u["idx"]:
         prods = gs[gi]
@@ -171,7 +175,7 @@ def run_unit(u):
                 continue
             first = True
             for cfgname, kind, strict, p, opts in parsers:
-                cfg = f"{lm}/{cfgname}"
+                cfg = f"{lm}/{cfgname}" + (f"/ws={WS!r}" if "ws" in u else "")
                 case = {"grammar": text, "parser": kind, "options": opts,
                         "input": s}
                 o = parse(p, s, mon)
